@@ -338,6 +338,16 @@ func (c *taskCtx) execOp(op *Op) string {
 			}
 			c.nOK++
 			return "dsc:" + fbits(asMetrics(s.res).Score())
+		case "rsc":
+			// score again an object decoded by "dsc"; same rendering, same key
+			sl := c.slot(op.Obj)
+			if sl == nil {
+				return "skip"
+			}
+			if sl.err != nil || isNilObj(sl.res) {
+				return "dsc:" + errSentinels(sl.err)
+			}
+			return "dsc:" + fbits(asMetrics(sl.res).Score())
 		case "obs":
 			p, _, ok := c.operand(op)
 			if !ok {
@@ -483,6 +493,11 @@ func (c *taskCtx) opKey(op *Op) (string, bool) {
 		return fmt.Sprintf("dec|%d|%v|%s", op.Kind, op.NilRecv, strconv.Quote(op.Vec)), true
 	case "dsc":
 		return fmt.Sprintf("dsc|%d|%v|%s", op.Kind, op.NilRecv, op.Vec), true
+	case "rsc":
+		if sl := c.slot(op.Obj); sl != nil {
+			return fmt.Sprintf("dsc|%d|%v|%s", sl.kind, sl.nilrecv, sl.vec), true
+		}
+		return "", false
 	case "obs", "snap":
 		_, origin, ok := c.operand(op)
 		if !ok {
